@@ -264,6 +264,9 @@ class URL:
             url = f"{scheme}://{host_header}{path}"
         elif server is None:
             url = path
+            if url.startswith("//"):
+                # an empty authority keeps the first segment from being read as a host
+                url = "//" + url
         else:
             host, port = server
             if ":" in host and not host.startswith("["):
